@@ -234,7 +234,24 @@ def depends_on_slot_index(T, f, e, depth=0, seen=None):
         seen = set()
     if e is None or depth > 8:
         return False
-    for x in hir_walk(e):
+
+    def values(e):
+        """sub-expressions whose VALUE flows into e: the index of `a[i]` / `p.add(i)` selects a slot, it does not flow"""
+        stack = [e]
+        while stack:
+            x = stack.pop()
+            if x is None:
+                continue
+            yield x
+            k = x.get("k")
+            if k == "index":
+                stack.append(x["e"])
+            elif k == "mcall" and x["name"] in ("add", "offset", "get", "get_unchecked", "get_mut", "get_unchecked_mut", "wrapping_add") \
+                    and "*" in (hir_strip(x["recv"]).get("ty") or "*") and x["name"] != "wrapping_add":
+                stack.append(x["recv"])
+            else:
+                stack.extend(hir_children(x))
+    for x in values(e):
         k = x.get("k")
         if k in ("call", "mcall") and any(n.endswith("::home_slot") or n.endswith("::find_ind") for n in hir_callee(x)):
             return True
